@@ -110,8 +110,9 @@ def driver_for(kind, k, n):
                 if kind == 'neigh' and t == k:
                     keep = build_neighbours()
                 if kind == 'fork' and t == k:       # checkpoint / restore: the stream continues on a deep copy
-                    import copy as _copy
-                    keep, s = s, _copy.deepcopy(s)
+                    cp = choice.safe_copy(s)
+                    if cp is not None:
+                        keep, s = s, cp
             xs, ys = s.get_data()
             ids = [x['id'] if x['id'] == y else (x['id'], y) for x, y in zip(list(xs), list(ys))]
             if len(list(ys)) != len(list(xs)):
